@@ -211,7 +211,8 @@ def der_direction_cosine_spheroid(c, k, rho, rhosq=None, phi=None):
     if phi is None:
         phi = phi_spheroid(c, k, rhosq)
 
-    num = -csq * (k-1) * rho
+    # phi = sqrt(1 - (1+k) c^2 rho^2)  =>  d/drho (1/phi) = (1+k) c^2 rho / phi^3
+    num = csq * (1+k) * rho
     den = phi * phi * phi
     return num / den
 
